@@ -71,4 +71,71 @@ def hasBit (n k : Nat) : Bool := n / 2 ^ k % 2 = 1
 /-- `str.lower()` on ASCII -/
 def lower (s : String) : String := String.ofList (s.toList.map Char.toLower)
 
+/-! ### second-generation translator target (`harness/pytrans2.py`): readers with effects, loops, dynamic values -/
+
+/-- a value in a dynamically typed position (`Any`): what `_read_param_value` can return.  `S` is the type of decoded
+    text (`str`) -/
+inductive Val (S : Type)
+  | none
+  | int (z : Int)
+  | str (s : S)
+  | flt (bits : Bytes)          -- `float`: the bit pattern (`struct.unpack("<f"/"<d")` is opaque)
+deriving DecidableEq, Repr
+
+/-- what the translated code takes from its environment (modelled, not verified: the codec and enum tables) -/
+structure Env (S : Type) where
+  collation : Nat → Option Nat          -- `Collation(n).charset` as a character-set id; `none`: ValueError
+  decode : Nat → Bytes → Option S       -- `CharacterSet(cs).decode(b)` / `b.decode(cs.codec)`; `none`: the codec raises
+  empty : S                             -- `""`
+  validType : Nat → Bool                -- `ColumnType(n)` exists
+
+/-- `reader.read(k)` for a computed `k`: `OverflowError` when `k` does not fit a C `ssize_t` -/
+def readN (k : Nat) (r : Bytes) : Option (Bytes × Bytes) :=
+  if k < 2 ^ 63 then some (r.take k, r.drop k) else none
+
+/-- `peek(reader)` -/
+def peek1 (r : Bytes) : Bytes := r.take 1
+
+/-- `read_float` / `read_double`: `struct.unpack` needs exactly `k` bytes; the value is its bit pattern -/
+def readFlt {S : Type} (k : Nat) (r : Bytes) : Option (Val S × Bytes) :=
+  if k ≤ r.length then some (.flt (r.take k), r.drop k) else none
+
+/-- `for x in xs: body` over a state `σ` (assigned variables and the reader position); `none`: the body raised -/
+def forM {α σ : Type} : List α → σ → (α → σ → Option σ) → Option σ
+  | [], s, _ => some s
+  | a :: as, s, f =>
+    match f a s with
+    | none => none
+    | some s' => forM as s' f
+
+/-- one iteration of a `while` loop: go round again, leave the loop, or return from the function -/
+inductive Step (σ α : Type)
+  | next (s : σ)
+  | brk (s : σ)
+  | ret (a : α)
+
+/-- `while …: body` with explicit fuel.  Outer `none`: the fuel ran out (the loop did not finish within `fuel`
+    iterations); `some none`: the body raised; `some (some x)`: the loop ended with `x` (never `.next`) -/
+def loopM {σ α : Type} : Nat → σ → (σ → Option (Step σ α)) → Option (Option (Step σ α))
+  | 0, _, _ => none
+  | n + 1, s, f =>
+    match f s with
+    | none => some none
+    | some (.next s') => loopM n s' f
+    | some x => some (some x)
+
+/-- Python `dict` as an insertion-ordered association list: `d[k] = v` -/
+def dictSet {κ ν : Type} [DecidableEq κ] (d : List (κ × ν)) (k : κ) (v : ν) : List (κ × ν) :=
+  if d.any (fun x => x.1 = k) then d.map (fun x => if x.1 = k then (x.1, v) else x) else d ++ [(k, v)]
+
+/-- `{k: v for k, v in pairs}` -/
+def dictOf {κ ν : Type} [DecidableEq κ] (ps : List (κ × ν)) : List (κ × ν) :=
+  ps.foldl (fun d kv => dictSet d kv.1 kv.2) []
+
+def dictGet {κ ν : Type} [DecidableEq κ] (d : List (κ × ν)) (k : κ) : Option ν :=
+  (d.find? (fun x => x.1 = k)).map Prod.snd
+
+/-- `bytes[i]`: IndexError past the end -/
+def byteAt (b : Bytes) (i : Nat) : Option Nat := (b[i]?).map UInt8.toNat
+
 end Mimic.Py
